@@ -26,6 +26,7 @@ struct c4_ctx {
     int depth = 1;
     int completion = 0;
     int throw_level = -1;
+    int bomb_level = -1; // this level co_returns arguments from which the result cannot be constructed (constructor throws 50+level)
     std::atomic<int> body_runs[8];
     std::atomic<int> body_done[8];
     cocls::future<void> gate;
@@ -58,6 +59,7 @@ template <typename T> cocls::async<T> c4_body(c4_ctx &X, int level, tracked arg)
     if (!local.ok() || !arg.ok()) throw vf::test_exc{-77};
     X.body_done[level].fetch_add(1, std::memory_order_relaxed);
     if (X.throw_level == level) throw vf::test_exc{level};
+    if constexpr (std::is_same_v<T, vf::tracked_thr>) { if (X.bomb_level == level) co_return vf::bomb{50 + level}; }
     if constexpr (std::is_void_v<T>) co_return; else co_return c4_value<T>(inner);
 }
 // coroutine declared with future<T> as its return type (started on call)
@@ -71,6 +73,7 @@ template <typename T> cocls::future<T> c4_future_fn(c4_ctx &X, tracked arg) {
     } else if (X.completion >= AC_SUSPEND_VALUE) { bool hv = co_await X.gate.has_value(); (void)hv; }
     X.body_done[0].fetch_add(1, std::memory_order_relaxed);
     if (X.throw_level == 0) throw vf::test_exc{0};
+    if constexpr (std::is_same_v<T, vf::tracked_thr>) { if (X.bomb_level == 0) co_return vf::bomb{50}; }
     if constexpr (std::is_void_v<T>) co_return; else co_return c4_value<T>(inner);
 }
 
@@ -101,11 +104,12 @@ void async_program(const vf::opts &o, vf::report &R, uint64_t pn, vf::rng &r, co
     X.completion = force_completion >= 0 ? force_completion : (int)r.below(4);
     bool throws = X.completion == AC_THROW || X.completion == AC_SUSPEND_THROW;
     X.throw_level = throws ? (int)r.below((uint32_t)X.depth) : -1;
+    if constexpr (std::is_same_v<T, vf::tracked_thr>) { if (!throws && r.chance(1, 2)) X.bomb_level = (int)r.below((uint32_t)X.depth); }
     bool other_thread = r.chance(1, 3);
     bool suspends = X.completion >= AC_SUSPEND_VALUE;
     if (mode == AM_FUTURE_FN && false) X.depth = 1;
     std::string desc = std::string(ftype_name<T>()) + " / " + am_name(mode) + " / " + ac_name(X.completion) + " / depth " + std::to_string(X.depth) +
-                       (throws ? " throw@" + std::to_string(X.throw_level) : "") + (suspends ? (other_thread ? " / finished by another thread" : " / finished by the same thread") : "");
+                       (throws ? " throw@" + std::to_string(X.throw_level) : "") + (X.bomb_level >= 0 ? " unconstructible-result@" + std::to_string(X.bomb_level) : "") + (suspends ? (other_thread ? " / finished by another thread" : " / finished by the same thread") : "");
     vf::set_crash_ctx(R.prop.c_str(), "async_programs", o.seed, pn, desc.c_str());
     long live0 = tracked::live.load(), bad0 = tracked::bad.load();
     c4_result<T> res;
@@ -188,6 +192,7 @@ void async_program(const vf::opts &o, vf::report &R, uint64_t pn, vf::rng &r, co
     outcome expect;
     if (!started) expect.state = PS_CANCELED;
     else if (throws) { expect.state = PS_EXC; expect.code = X.throw_level; }
+    else if (X.bomb_level >= 0) { expect.state = PS_EXC; expect.code = 50 + X.bomb_level; } // the constructor's exception is the coroutine's outcome
     else { expect.state = PS_VALUE; expect.val = std::is_void_v<T> ? 0 : X.base + (uint64_t)X.depth - 1; }
     for (int l = 0; l < 8 && err.empty(); l++) {
         int want_runs = (started && l < X.depth) ? 1 : 0;
@@ -223,9 +228,11 @@ inline void async_programs(const vf::opts &o, vf::report &R, uint64_t programs) 
         default: async_program<tracked>(o, R, pn++, r, pool, m, c); break;
         }
     }
+    for (int m = 0; m < AM_NMODES && R.nviol() < 5; m++) for (int c = 0; c < 4; c++) { vf::rng r(master.next()); async_program<vf::tracked_thr>(o, R, pn++, r, pool, m, c); }
     for (; pn < programs && R.nviol() < 5; pn++) {
         vf::rng r(master.next());
-        switch (r.below(4)) {
+        switch (r.below(5)) {
+        case 4: async_program<vf::tracked_thr>(o, R, pn, r, pool, -1, -1); break;
         case 0: async_program<void>(o, R, pn, r, pool, -1, -1); break;
         case 1: async_program<int>(o, R, pn, r, pool, -1, -1); break;
         case 2: async_program<tracked_mo>(o, R, pn, r, pool, -1, -1); break;
